@@ -101,7 +101,7 @@ static std::string program(const Tree &t, const int32_t v[3], const int k[3], in
 }
 
 int main(int argc, char **argv) {
-  ctx = parse_args("C07", argc, argv, 240, 3400);
+  ctx = parse_args("C07", argc, argv, 600, 3400);
   Report rep; rep.ctx = ctx;
   std::vector<int32_t> V = ctx.thorough() ? std::vector<int32_t>{0, 1, -1, 2, 5, 15, 16, 255, 256, 65535, 65536, -65535, -65536, 65537, INT32_MAX, INT32_MIN, INT32_MIN + 1}
                                           : std::vector<int32_t>{0, 1, -1, 2, 5, 16, 65535, 65536, -65536, INT32_MAX, INT32_MIN};
